@@ -109,6 +109,9 @@ h("put_step_n4", "ranger_l::put_step::<S, 4>", ["C02", "C01"], "quick", unwind=9
 h("put_commute_n4", "ranger_l::put_commute::<S, 4>", ["C02"], "quick", unwind=9, family="put_commute")
 PM_STUBS = DEFAULT_STUBS + ["cteq", "blake3empty"]
 # process_message is expensive for CBMC's symbolic execution (pointer value sets over Vec<MessagePart>): thorough tier only
+PM_UW = {r"process_message.*\{closure#0\}\.\d+$": 3, r"Iterator>::any::<": 3, r"LIter as .*Iterator>::next": 8, r"Iterator>::try_fold": 8}
+h("pm_item_step_n2_v1_hl", "ranger_l::pm_item_step::<S, 2, 1, 1>", ["C01", "C03", "C12"], "thorough", unwind=9, stubs=PM_STUBS, family="pm_item_step", cap=3600, mem_gb=40)
+h("pm_item_step_n2_v1_hl_uw", "ranger_l::pm_item_step::<S, 2, 1, 1>", ["C01", "C03", "C12"], "thorough", unwind=9, unwindset=PM_UW, stubs=PM_STUBS, family="pm_item_step", cap=3600, mem_gb=40)
 h("pm_item_step_n3_v1_hl", "ranger_l::pm_item_step::<S, 3, 1, 1>", ["C01", "C03", "C12"], "thorough", unwind=9, stubs=PM_STUBS, family="pm_item_step", cap=5400, mem_gb=40)
 h("pm_item_step_n3_v2_hl", "ranger_l::pm_item_step::<S, 3, 2, 1>", ["C01", "C03", "C12"], "thorough", unwind=9, stubs=PM_STUBS, family="pm_item_step", cap=5400, mem_gb=40)
 h("pm_item_step_n3_v1", "ranger_l::pm_item_step::<S, 3, 1, 2>", ["C01", "C03", "C12"], "thorough", unwind=9, stubs=PM_STUBS, family="pm_item_step", cap=5400, mem_gb=40)
@@ -282,6 +285,33 @@ META["C13"] = dict(
     bounds="all paths of the closure; ghost pre-state: head row absent, or present with an arbitrary timestamp; timestamps ordered by one total preorder",
     outside="AuthorHeads (BTreeMap: intractable for CBMC, loops for E3), migrations, has_news_for_us",
     assumptions=["redb Table::get/insert behave as documented (modelled by the ghost row)", "the `?`/match unpacking shapes of the lookup are the ones recognised by the query (otherwise: inconclusive)"],
+)
+META["C17"] = dict(
+    engine=E3ENG.replace("loop-free bodies", "bodies (the two `for` loops over the peer row unrolled: the row iterator is a concrete window over K <= 5 rows; `len` folded as a constant)"),
+    functions=["store::fs::Store::register_useful_peer::{closure#1} (the transaction closure: document check, scan of the peer row, refresh / insert / eviction)",
+               "store::fs::Store::get_sync_peers", "store::PEERS_PER_DOC_CACHE_SIZE (read from the source; the specification constant is 5)"],
+    bounds="one registration from an arbitrary invariant state: row length K = 0..5 (complete: the invariant bounds the row by five), peers pairwise distinct, which stored peer equals the registered one symbolic, document known/unknown symbolic; all paths of the closure; sequences by induction on the one-step law",
+    outside="persistence across reopen (redb, trusted); storage errors (every redb call answers Ok); a wall clock that stands still or runs backwards between two registrations (the store orders peers by SystemTime nanoseconds)",
+    assumptions=["redb multimap values iterate in ascending (time, peer) order; insert/remove do what their names say", "the new timestamp is greater than every stored one",
+                 "the closure's captured variables are identified by their debug names (namespace, nanos, peer); otherwise: inconclusive"],
+)
+META["C18"] = dict(
+    engine=E3ENG.replace("loop-free bodies", "bodies (the `for` loops over the records table and over the collected heads unrolled: the table iterator is a concrete window over K rows; counters folded)"),
+    functions=["store::fs::migrations::migration_004_populate_by_key_index", "store::fs::migrations::migration_001_populate_latest_table and its closures {closure#0} (and_modify) and {closure#1} (or_insert_with)",
+               "store::fs::migrations::run_migration", "store::fs::migrations::run_migrations"],
+    bounds="records table of K rows in key order: K = 0..4 for the by-key index, K = 0..3 with every contiguous grouping into (namespace, author) pairs for the heads (timestamps symbolic under one total preorder, ties included); derived table empty / populated; all paths of the two drivers",
+    outside="redb itself (open_table, is_empty, iter, insert, commit: modelled); the order in which std HashMap yields the collected heads (the inserts go to distinct keys, so they commute); migrations 002/003 (namespaces v1); larger tables (the bodies treat every row alike); storage errors",
+    assumptions=["redb iterates a table in key order, so the rows of one (namespace, author) pair are contiguous", "a populated by-key index is consistent with the records table (it is maintained by every write: C02/C16 checks)",
+                 "std HashMap entry API behaves as documented (and_modify runs the closure on the stored value iff the key is present; or_insert_with inserts iff absent)"],
+)
+META["C06"] = dict(
+    engine=E3ENG + "; block-graph reachability (propositional, inductive-invariant encoding) for the generic ranger::Store::put",
+    functions=["store::fs::Store::flush", "store::fs::Store::tables", "store::fs::Store::modify and its variants (thin wrappers followed with their constant arguments)",
+               "ranger::Store::put (generic body: call order prune -> write)", "store::fs::StoreInstance::{remove_prefix_filtered, entry_put} (which store access each goes through)"],
+    bounds="all paths of flush / tables / modify (transaction state None|Read|Write symbolic, age test symbolic, tracing side paths 'disabled'); the full block graph of put (unbounded: loops kept as cycles)",
+    outside="redb's own crash recovery and durability (trusted, as in the property's anchors); operation histories (one access / one insert at a time); the actor's idle flush; `snapshot`/`snapshot_owned` (commit at operation boundaries only)",
+    assumptions=["redb commit/begin_write/open_table answer Ok (storage errors outside)", "a crash image shows exactly the last committed transaction (redb)",
+                 "native confirmation uses the guarded hook store::fs::verif_incrate::commit_age (feature verif) to make the open transaction look older than MAX_COMMIT_DELAY at a chosen access"],
 )
 META["C14"] = dict(
     engine="E3 mirsmt: nightly MIR dump of /repo's working tree (regenerated per run), symbolic execution of the loop-free bodies, z3 4.8 cross-checked with cvc5 1.0; native witness for sat",
